@@ -11,6 +11,7 @@ Clause tokens
   TH / TI THROW(std::runtime_error) / THROW(int)
   Q1 / Q2 IN_SEQUENCE(one) / IN_SEQUENCE(two sequence objects)
   RT      RT_TIMES(lo, hi) with run-time bounds from the op script
+  RT1     RT_TIMES(hi)  (exactly hi)   RTAL  RT_TIMES(AT_LEAST(lo))   RTAM  RT_TIMES(AT_MOST(hi))
   T<l>_<h>, T<n>, AL<n>, AM<n>  compile-time TIMES forms
 Function codes: f = int f(int), s = int f(std::string const&) (overload),
   g = int g(int,int) const, v = void v(int)
@@ -115,8 +116,16 @@ SHAPES = [
     S(110, 'f', 'REQ',    'RT R',        nm='w'),
     S(111, 'f', 'ALLOW',  'R',           nm='w'),
     S(112, 'f', 'REQ',    'Q1 RT R',     nm='w'),
+    # ---- the other forms of RT_TIMES (single value = exactly n; AT_LEAST / AT_MOST with run-time values)
+    S(120, 'f', 'REQ',    'RT1 R'),
+    S(121, 'f', 'REQ',    'Q1 RT1 R'),
+    S(122, 'f', 'REQ',    'RTAL R'),
+    S(123, 'f', 'REQ',    'RTAM R'),
+    S(124, 'f', 'REQ',    'RT1 Q1 R'),
+    S(125, 'v', 'REQ',    'RTAM Q1', pm='wild'),
 ]
 WATCHED_IDS = {110, 111, 112}
+RTFORM_IDS = set(range(120, 126))
 NONMOVABLE_IDS = set(range(100, 106))
 SCOPED_IDS = set(range(70, 82)) | {105}
 
@@ -128,6 +137,8 @@ def static_bounds(tok):
         return (int(tok[2:]), INF)
     if tok.startswith('AM'):
         return (0, int(tok[2:]))
+    if tok.startswith('RT'):
+        return None
     if tok.startswith('T') and tok not in ('TH', 'TI'):
         body = tok[1:]
         if '_' in body:
@@ -152,20 +163,21 @@ def derive(sh):
         retk = 0            # void / nothing
     fam = sh['macro'].replace('_V', '').lstrip('S') if sh['macro'].startswith('S') else sh['macro'].replace('_V', '')
     lo, hi = {'REQ': (1, 1), 'ALLOW': (0, INF), 'FORBID': (0, 0)}[fam]
-    rt = 'RT' in cl
+    rt = any(c in ('RT', 'RT1', 'RTAL', 'RTAM') for c in cl)
+    rtk = 1 if 'RT' in cl else 2 if 'RT1' in cl else 3 if 'RTAL' in cl else 4 if 'RTAM' in cl else 0
     for c in cl:
         b = static_bounds(c)
         if b:
             lo, hi = b
     # is the bounds clause evaluated before the IN_SEQUENCE clause?  (what
     # bounds the sequence handle copies at registration time)
-    bidx = [i for i, c in enumerate(cl) if c == 'RT' or static_bounds(c)]
+    bidx = [i for i, c in enumerate(cl) if c in ('RT', 'RT1', 'RTAL', 'RTAM') or static_bounds(c)]
     qidx = [i for i, c in enumerate(cl) if c in ('Q1', 'Q2')]
     bounds_first = bool(bidx and qidx and bidx[0] < qidx[0])
     if fam != 'REQ':
         bounds_first = True
     return dict(fn=FN[sh['fn']], npar=NPAR[sh['fn']], nw=nw, ns=ns, nq=nq,
-                retk=retk, lo=lo, hi=hi, rt=rt, pm=sh['pm'],
+                retk=retk, lo=lo, hi=hi, rt=rt, rtk=rtk, pm=sh['pm'],
                 bounds_first=bounds_first, macro=fam)
 
 DERIVED = {s['id']: derive(s) for s in SHAPES}
